@@ -21,6 +21,8 @@ type SCtx struct {
 	old    *State
 	inOld  bool
 	errs   *[]string
+	goal   bool // evaluating an obligation's goal in positive position: universal quantifiers are skolemised
+	loopPre *State // state at entry of the loop whose invariant is being evaluated (atentry)
 }
 
 func (c *SCtx) st() *State {
@@ -116,12 +118,9 @@ func (c *SCtx) lookupName(name string) *Val {
 		}
 	}
 	if c.fr != nil {
-		if as := c.fr.byName[name]; len(as) > 0 {
-			for i := len(as) - 1; i >= 0; i-- {
-				if o := c.fr.allocs[as[i]]; o != nil {
-					return ex.load(c.st(), Loc{Obj: o}, o.Typ)
-				}
-			}
+		if a := c.fr.latestAlloc(name); a != nil {
+			o := c.fr.allocs[a]
+			return ex.load(c.st(), Loc{Obj: o}, o.Typ)
 		}
 		for i, p := range c.fr.fn.Params {
 			if p.Name() == name && i < len(c.fr.args) {
@@ -208,12 +207,9 @@ func (c *SCtx) addr(e *SExpr) *Val {
 			return nil
 		}
 		if c.fr != nil && !c.inOld {
-			if as := c.fr.byName[e.Name]; len(as) > 0 {
-				for i := len(as) - 1; i >= 0; i-- {
-					if o := c.fr.allocs[as[i]]; o != nil {
-						return &Val{K: KPtr, IsNil: False, Typ: types.NewPointer(o.Typ), Tg: []Target{{G: True, Loc: Loc{Obj: o}}}}
-					}
-				}
+			if a := c.fr.latestAlloc(e.Name); a != nil {
+				o := c.fr.allocs[a]
+				return &Val{K: KPtr, IsNil: False, Typ: types.NewPointer(o.Typ), Tg: []Target{{G: True, Loc: Loc{Obj: o}}}}
 			}
 		}
 		if _, ok := ex.p.cs.Ghosts[e.Name]; ok {
@@ -420,7 +416,9 @@ func (c *SCtx) eval(e *SExpr) *Val {
 			}
 			return c.fail("cannot dereference %s", e.Args[0].String())
 		}
-		x := c.eval(e.Args[0])
+		cu := *c
+		cu.goal = false
+		x := cu.eval(e.Args[0])
 		switch e.Name {
 		case "!":
 			if x.K == KScalar && x.T.Sort.K == SBool {
@@ -445,7 +443,9 @@ func (c *SCtx) eval(e *SExpr) *Val {
 	case "bin":
 		return c.evalBin(e)
 	case "ite":
-		g := c.bool(e.Args[0])
+		cg := *c
+		cg.goal = false
+		g := cg.bool(e.Args[0])
 		a := c.eval(e.Args[1])
 		b := c.eval(e.Args[2])
 		if a.K == KUntyped && b.K == KScalar {
@@ -574,9 +574,21 @@ func (c *SCtx) eval(e *SExpr) *Val {
 				w = ww
 			}
 		}
+		if c.goal && e.Op == "forall" {
+			sk := ex.declare("sk."+e.Name, BV(w))
+			ex.curSkolems = append(ex.curSkolems, sk)
+			c3 := *c
+			c3.env = map[string]*Val{}
+			for k, v := range c.env {
+				c3.env[k] = v
+			}
+			c3.env[e.Name] = &Val{K: KScalar, Typ: bt, T: sk}
+			return &Val{K: KScalar, Typ: types.Typ[types.Bool], T: c3.bool(e.Args[0])}
+		}
 		ex.ctr++
 		bn := fmt.Sprintf("%s!q%d", sanitize(e.Name), ex.ctr)
 		c2 := *c
+		c2.goal = false
 		c2.env = map[string]*Val{}
 		for k, v := range c.env {
 			c2.env[k] = v
@@ -613,7 +625,9 @@ func (c *SCtx) evalBin(e *SExpr) *Val {
 	boolT := types.Typ[types.Bool]
 	switch e.Name {
 	case "==>":
-		a := c.bool(e.Args[0])
+		cn := *c
+		cn.goal = false
+		a := cn.bool(e.Args[0])
 		if a.IsFalse() {
 			return &Val{K: KScalar, Typ: boolT, T: True}
 		}
@@ -630,6 +644,11 @@ func (c *SCtx) evalBin(e *SExpr) *Val {
 			return &Val{K: KScalar, Typ: boolT, T: True}
 		}
 		return &Val{K: KScalar, Typ: boolT, T: Or(a, c.bool(e.Args[1]))}
+	}
+	if c.goal {
+		cn := *c
+		cn.goal = false
+		c = &cn
 	}
 	x := c.eval(e.Args[0])
 	y := c.eval(e.Args[1])
@@ -779,6 +798,17 @@ func (c *SCtx) evalCall(e *SExpr) *Val {
 			}
 		}
 		return c.fail("len/cap of unsupported value %s", e.Args[0].String())
+	case "atentry":
+		if len(e.Args) != 1 {
+			return c.fail("atentry takes one argument")
+		}
+		if c.loopPre == nil {
+			return c.fail("atentry used outside a loop invariant")
+		}
+		c2 := *c
+		c2.cur = c.loopPre
+		c2.goal = false
+		return c2.eval(e.Args[0])
 	case "same":
 		if len(e.Args) != 1 {
 			return c.fail("same takes one argument")
@@ -858,7 +888,7 @@ func (c *SCtx) evalCall(e *SExpr) *Val {
 			}
 			env[p] = a
 		}
-		c2 := &SCtx{ex: ex, fr: nil, pkg: pf.Pkg, env: env, cur: c.cur, old: c.old, inOld: c.inOld}
+		c2 := &SCtx{ex: ex, fr: nil, pkg: pf.Pkg, env: env, cur: c.cur, old: c.old, inOld: c.inOld, goal: c.goal, loopPre: c.loopPre}
 		if c2.pkg == "" {
 			c2.pkg = c.pkg
 		}
@@ -882,7 +912,9 @@ func (c *SCtx) conjuncts(e *SExpr) []conjunct {
 	if e.Op == "bin" && e.Name == "==>" {
 		rhs := c.conjuncts(e.Args[1])
 		if len(rhs) > 1 {
-			a := c.bool(e.Args[0])
+			ca := *c
+			ca.goal = false
+			a := ca.bool(e.Args[0])
 			for i := range rhs {
 				rhs[i].T = Implies(a, rhs[i].T)
 				rhs[i].Text = e.Args[0].String() + " ==> " + rhs[i].Text
@@ -908,7 +940,7 @@ func (c *SCtx) conjuncts(e *SExpr) []conjunct {
 				}
 				env[p] = a
 			}
-			c2 := &SCtx{ex: c.ex, pkg: pf.Pkg, env: env, cur: c.cur, old: c.old, inOld: c.inOld}
+			c2 := &SCtx{ex: c.ex, pkg: pf.Pkg, env: env, cur: c.cur, old: c.old, inOld: c.inOld, goal: c.goal, loopPre: c.loopPre}
 			if c2.pkg == "" {
 				c2.pkg = c.pkg
 			}
@@ -920,4 +952,40 @@ func (c *SCtx) conjuncts(e *SExpr) []conjunct {
 		}
 	}
 	return []conjunct{{c.bool(e), e.String()}}
+}
+
+// goalCtx returns a context for evaluating an obligation's goal.
+func (ex *Exec) goalCtx(fr *Frame, cur, old *State, env map[string]*Val) *SCtx {
+	c := ex.rootCtx(fr, cur, old, env)
+	c.goal = true
+	return c
+}
+
+// latestAlloc returns the allocation of the local variable with the given name that is in scope at
+// the frame's current block: its declaring block must dominate the current block; among several
+// (shadowing, reuse of a name in sibling scopes) the innermost one wins, then the most recently executed.
+func (fr *Frame) latestAlloc(name string) *ssa.Alloc {
+	var best *ssa.Alloc
+	for _, a := range fr.byName[name] {
+		if fr.allocs[a] == nil {
+			continue
+		}
+		if fr.curBlock != nil && a.Block() != fr.curBlock && !a.Block().Dominates(fr.curBlock) {
+			continue
+		}
+		if best == nil {
+			best = a
+			continue
+		}
+		switch {
+		case best.Block() != a.Block() && best.Block().Dominates(a.Block()):
+			best = a // a is declared in an inner scope
+		case best.Block() != a.Block() && a.Block().Dominates(best.Block()):
+		default:
+			if fr.allocSeq[a] > fr.allocSeq[best] {
+				best = a
+			}
+		}
+	}
+	return best
 }
